@@ -20,10 +20,10 @@ Full statement of the property (FALSE on this tree, kept visible):
     theorem documented_eq_bound_full (c : Ctx) (stmts : List Stmt) :
         documented c stmts = bound c stmts ∧ ((documented c stmts).map (·.1)).Nodup
 It fails for `@x.setter` (member `x.setter` invented), a bare annotation (member invented), a class attribute
-assigned a non-literal that shadows an inherited method (member missing; literals are documented since 91105ce), definitions in `else`/`finally`
+assigned a non-literal that shadows an inherited method (member missing; literals are documented since 91105ce), definitions in the `else` branch of an `if` / an `except` handler that runs
 (missing), a `def`/`class`/property name assigned afterwards (pydoctor keeps the definition; every other
 re-binding is inside the subset: the last binding wins on both sides), `@overload` without implementation; the
-kind clause fails for stacked descriptors, `builtins.classmethod`, identity decorators named `*property` and
+kind clause fails for stacked descriptors, identity decorators named `*property` and
 descriptors at module level.  Each has a `_counterexample` theorem below.  Two former exclusions are gone:
 exception classes missing from `_STD_LIB_EXCEPTIONS` (fixed by 769cae3) and a string statement right after a
 property (fixed by fcaa577); their witnesses are kept as `…_counterexample_old` over labelled pre-fix definitions;
@@ -130,16 +130,17 @@ theorem decoStep_ok (inClass : Bool) (fl : Flags) (d : Deco) (h : decoOk inClass
                 isStaticmethod := fl.isStaticmethod || descOf d == some .staticmethod } := by
   cases d with
   | builtin k q =>
-    simp only [decoOk, Bool.and_eq_true, Bool.not_eq_true'] at h
-    obtain ⟨hc, hq⟩ := h
-    subst hc; subst hq
+    simp only [decoOk] at h
+    subst h
     have e1 : endsWith sClassmethod sProperty = false := by decide
     have e2 : endsWith sClassmethod sPropertyCap = false := by decide
     have e3 : endsWith sStaticmethod sProperty = false := by decide
     have e4 : endsWith sStaticmethod sPropertyCap = false := by decide
     have e5 : endsWith sProperty sProperty = true := by decide
     have e6 : (sStaticmethod = sClassmethod) = False := by decide
-    cases k <;> simp [decoStep, dotted, descName, descOf, expandsToOverload, e1, e2, e3, e4, e5, e6]
+    have e7 : (sBuiltins = sClassmethod) = False := by decide
+    have e8 : (sBuiltins = sStaticmethod) = False := by decide
+    cases k <;> cases q <;> simp [decoStep, dotted, descName, descOf, expandsToOverload, e1, e2, e3, e4, e5, e6, e7, e8]
   | ident n =>
     simp only [decoOk, Bool.and_eq_true, Bool.not_eq_true', bne_iff_ne, ne_eq] at h
     obtain ⟨⟨⟨h1, h2⟩, h3⟩, h4⟩ := h
@@ -1326,32 +1327,30 @@ theorem sim_stmt (c : Ctx) : (st : Stmt) → ∀ (inBlock : Bool) (sn sn' : Seen
     | elseTaken => simp [checkStmt] at h
     | ifTaken =>
       simp only [checkStmt] at h
-      split at h
-      · rename_i ht
-        obtain ⟨s', ns', hb, hp, R'⟩ := sim_list c body true sn sn' s ns R h
-        exact ⟨s', ns', by simp only [execStmt]; exact hb, by simp [PySem.execStmt, hp], R'⟩
-      · simp at h
+      obtain ⟨s', ns', hb, hp, R'⟩ := sim_list c body true sn sn' s ns R h
+      exact ⟨s', ns', by simp only [execStmt]; exact hb, by simp [PySem.execStmt, hp], R'⟩
     | «with» =>
       simp only [checkStmt] at h
-      split at h
-      · rename_i ht
-        obtain ⟨s', ns', hb, hp, R'⟩ := sim_list c body true sn sn' s ns R h
-        exact ⟨s', ns', by simp only [execStmt]; exact hb, by simp [PySem.execStmt, hp], R'⟩
-      · simp at h
+      obtain ⟨s', ns', hb, hp, R'⟩ := sim_list c body true sn sn' s ns R h
+      exact ⟨s', ns', by simp only [execStmt]; exact hb, by simp [PySem.execStmt, hp], R'⟩
     | «try» =>
       simp only [checkStmt] at h
-      split at h
-      · rename_i ht
-        obtain ⟨s', ns', hb, hp, R'⟩ := sim_list c body true sn sn' s ns R h
-        exact ⟨s', ns', by simp only [execStmt]; exact hb, by simp [PySem.execStmt, hp, inert_exec c tail ns' ht], R'⟩
-      · simp at h
+      cases hc1 : checkList c sn body with
+      | none => simp [hc1] at h
+      | some sn1 =>
+        simp only [hc1] at h
+        obtain ⟨s1, ns1, hb, hp, R1⟩ := sim_list c body true sn sn1 s ns R hc1
+        obtain ⟨s2, ns2, hb2, hp2, R2⟩ := sim_list c tail true sn1 sn' s1 ns1 R1 h
+        exact ⟨s2, ns2, by simp only [execStmt, hb]; exact hb2, by simp only [PySem.execStmt, hp]; exact hp2, R2⟩
     | «for» =>
       simp only [checkStmt] at h
-      split at h
-      · rename_i ht
-        obtain ⟨s', ns', hb, hp, R'⟩ := sim_list c body true sn sn' s ns R h
-        exact ⟨s', ns', by simp only [execStmt]; exact hb, by simp [PySem.execStmt, hp, inert_exec c tail ns' ht], R'⟩
-      · simp at h
+      cases hc1 : checkList c sn body with
+      | none => simp [hc1] at h
+      | some sn1 =>
+        simp only [hc1] at h
+        obtain ⟨s1, ns1, hb, hp, R1⟩ := sim_list c body true sn sn1 s ns R hc1
+        obtain ⟨s2, ns2, hb2, hp2, R2⟩ := sim_list c tail true sn1 sn' s1 ns1 R1 h
+        exact ⟨s2, ns2, by simp only [execStmt, hb]; exact hb2, by simp only [PySem.execStmt, hp]; exact hp2, R2⟩
   | .aliasAssign n src, _, _, _, _, _, _, h => by simp [checkStmt] at h
   | .wrapAssign n d src, _, _, _, _, _, _, h => by simp [checkStmt] at h
 theorem sim_list (c : Ctx) : (l : List Stmt) → ∀ (inBlock : Bool) (sn sn' : Seen) (s : State) (ns : PySem.Ns),
@@ -1523,8 +1522,6 @@ theorem inferAnn_spec (m : Member) (v : Lit) (hc : m.cls = .attribute) (ha : m.a
 theorem kind_eq_counterexample :
     funcKind true [] [.builtin .staticmethod false, .builtin .classmethod false] = .method ∧
     PySem.funcKind true [] [.builtin .staticmethod false, .builtin .classmethod false] = some .staticmethod ∧
-    funcKind true [] [.builtin .classmethod true] = .method ∧
-    PySem.funcKind true [] [.builtin .classmethod true] = some .classmethod ∧
     funcKind true [] [.ident "log_property".toList] = .property ∧
     PySem.funcKind true [] [.ident "log_property".toList] = some .method ∧
     funcKind false [] [.builtin .staticmethod false] = .function ∧
@@ -1748,10 +1745,26 @@ theorem kind_eq_wrapassign_counterexample :
     bound (cx true) [.funcDef nG false [] (some "getter".toList), .wrapAssign nX .property nG, .wrapAssign nW .staticmethod nG]
       = [(nG, .method), (nX, .property), (nW, .staticmethod)] := by decide
 
-/-- a definition in a `finally:` part is bound by CPython and not documented -/
-theorem documented_eq_bound_tail_counterexample :
-    documented (cx false) [.block .try [.other] [.funcDef nF false [] none]] = [] ∧
-    bound (cx false) [.block .try [.other] [.funcDef nF false [] none]] = [(nF, .function)] := by decide
+/-- the walk of a compound statement as it was before 99a6d9c: `.body` only — pre-fix, for the record -/
+def blockWalkOld (c : Ctx) (s : State) (body : List Stmt) : Outcome := execList c true s body
+
+/-- historical (before 99a6d9c): a definition in a `finally:` / try-`else:` / loop-`else:` clause was bound by CPython and
+not documented; now these clauses are walked after the body and such statement lists are inside the subset -/
+theorem documented_eq_bound_tail_counterexample_old :
+    (match blockWalkOld (cx false) {} [.other] with | .ok s => s.contents.map (·.name) | .assertionError => []) = [] ∧
+    documented (cx false) [.block .try [.other] [.funcDef nF false [] none], .block .for [.other] [.assign nW .int none]]
+      = [(nF, .function), (nW, .variable)] ∧
+    bound (cx false) [.block .try [.other] [.funcDef nF false [] none], .block .for [.other] [.assign nW .int none]]
+      = [(nF, .function), (nW, .variable)] ∧
+    inSubset (cx false) [.block .try [.other] [.funcDef nF false [] none], .block .for [.other] [.assign nW .int none]] = true := by
+  decide
+
+/-- historical (before 68b2b27): `@builtins.classmethod` was documented as a plain method; now the qualified spelling is
+recognised and inside `decosOk` -/
+theorem kind_eq_qualified_old :
+    funcKind true [] [.builtin .classmethod true] = .classmethod ∧
+    PySem.funcKind true [] [.builtin .classmethod true] = some .classmethod ∧
+    decosOk true [.builtin .staticmethod true, .ident "deco".toList] = true := by decide
 
 /-- re-binding: `def f` then `f = 1` — pydoctor keeps the function, CPython the last binding -/
 theorem documented_eq_bound_rebinding_counterexample :
